@@ -33,7 +33,10 @@ EXPLANATION = (
     'loops every line is appended exactly once, unchanged or through exactly one transformer, template files are opened with '
     'newline="", the meson replacement returns the single scan of its parameter, and the text returned by a define transformer '
     'depends (data/control flow) on the terminator and on the indentation of its input line; R5 the generated header iterates '
-    'sorted(keys) and emits once per key on every non-raising path. NOT decided: the cmake scanner (index arithmetic over run-time '
+    'sorted(keys) and emits once per key on every non-raising path; R6 every call between functions of the pipeline hands on the context parameters the '
+    'caller holds (format switch at_only, data object, subproject, pattern): none omitted in favour of a default, replaced by a constant or '
+    'cross-wired, and the dispatchers derive at_only as format == cmake@; R7 the tests that send a line to a define transformer cannot '
+    'depend on the leading blanks of the line (dependence flow as in R4c; both sibling loops agree). NOT decided: the cmake scanner (index arithmetic over run-time '
     'strings); how many backslashes of a run the regex engine consumes for a concrete text (leftmost/greedy matching); whether a '
     'result that depends on the terminator/indentation reproduces it exactly (only independence is refuted); indentation of '
     '#cmakedefine lines (the code slices line[1:], which observes the indentation); the nasm description comment; output bytes for '
@@ -298,7 +301,7 @@ class Spec(T.NamedTuple):
     role: T.Callable[[shape.Op], T.Optional[str]] = lambda op: None
     by_handler: bool = False
     line: T.Optional[str] = None
-    scans: T.Mapping[str, int] = {}
+    scans: T.Mapping[str, T.Any] = {}
 
 
 def _role(spec: Spec, sem: T.Dict[str, T.Any]) -> T.Callable[[shape.Op], str]:
@@ -792,11 +795,13 @@ def r3(ctx: RuleCtx) -> None:
     if len(line) != 1:
         raise Undecided(f'{qn}: cannot identify the line parameter')
     ln = line[0]
-    scans = {'do_replacement_meson': 1, 'do_replacement_cmake': 0}
-    for f_, i in scans.items():
+    scans: T.Dict[str, T.Tuple[int, str]] = {}
+    for f_ in ('do_replacement_meson', 'do_replacement_cmake'):
         a = mod.func(f_).args.args
-        if not (i < len(a) and a[i].annotation is not None and norm(a[i].annotation) == 'str'):
-            raise Undecided(f'{f_}: text parameter is not at position {i}')
+        txt = [(i, x.arg) for i, x in enumerate(a) if x.annotation is not None and norm(x.annotation) == 'str']
+        if len(txt) != 1:
+            raise Undecided(f'{f_}: cannot identify the text parameter')
+        scans[f_] = txt[0]
 
     def tokens(expr: str) -> bool:
         e = _parse(expr)
@@ -1403,6 +1408,237 @@ def r5(ctx: RuleCtx) -> None:
     ctx.floor('dump_conf_header: paths', np_, 2)
 
 
+# ---------------------------------------------------------------------------------------------
+# R6  context parameters are threaded through the pipeline (call-site agreement, K8)
+# ---------------------------------------------------------------------------------------------
+TEXT_ANN = {'str', 'T.List[str]', 'List[str]', 'T.Sequence[str]'}
+HEADER_ROOTS = ['dump_conf_header']
+
+
+def _pipeline(mod: Module, roots: T.List[str]) -> T.List[str]:
+    """Functions of the module reachable from the roots by calls through plain names (nested defs included)."""
+    seen: T.List[str] = []
+
+    def resolve(scope: str, name: str) -> T.Optional[str]:
+        parts = scope.split('.')
+        for i in range(len(parts), -1, -1):
+            q = '.'.join(parts[:i] + [name])
+            if mod.has_func(q):
+                return q
+        return None
+
+    def rec(q: str) -> None:
+        if q in seen:
+            return
+        seen.append(q)
+        for c in ast.walk(mod.func(q)):
+            if isinstance(c, ast.Call) and isinstance(c.func, ast.Name):
+                r = resolve(q, c.func.id)
+                if r is not None:
+                    rec(r)
+    for r in roots:
+        mod.func(r)
+        rec(r)
+    return seen
+
+
+def _ctx_params(fn: ast.FunctionDef) -> T.Dict[str, ast.arg]:
+    """Parameters that carry context (format switch, data object, subproject, pattern ...), i.e. everything but the text being transformed."""
+    out: T.Dict[str, ast.arg] = {}
+    for a in fn.args.posonlyargs + fn.args.args + fn.args.kwonlyargs:
+        ann = norm(a.annotation) if a.annotation is not None else ''
+        if ann in TEXT_ANN or a.arg in ('self', 'cls'):
+            continue
+        out[a.arg] = a
+    return out
+
+
+def _bind_call(call: ast.Call, fn: ast.FunctionDef) -> T.Optional[T.Dict[str, ast.AST]]:
+    names = [a.arg for a in fn.args.posonlyargs + fn.args.args]
+    konly = [a.arg for a in fn.args.kwonlyargs]
+    out: T.Dict[str, ast.AST] = {}
+    for i, a in enumerate(call.args):
+        if isinstance(a, ast.Starred) or i >= len(names):
+            return None
+        out[names[i]] = a
+    for k in call.keywords:
+        if k.arg is None or k.arg not in names + konly:
+            return None
+        out[k.arg] = k.value
+    return out
+
+
+def r6(ctx: RuleCtx) -> None:
+    mod = ctx.repo.module(U)
+    fns = _pipeline(mod, PIPELINE_ROOTS + HEADER_ROOTS)
+    n = 0
+    for q in fns:
+        f = mod.func(q)
+        # context a function holds: its own parameters and those of the functions it is nested in
+        held: T.Dict[str, ast.arg] = {}
+        parts = q.split('.')
+        for i in range(1, len(parts) + 1):
+            qq = '.'.join(parts[:i])
+            if mod.has_func(qq):
+                held.update(_ctx_params(mod.func(qq)))
+        if not held:
+            continue
+        fl = Flow(f, nested=False)
+        for c in [c for c in ast.walk(f) if isinstance(c, ast.Call) and isinstance(c.func, ast.Name)]:
+            if mod.enclosing_func(c) != q:
+                continue
+            gq = None
+            for i in range(len(parts), -1, -1):
+                cand = '.'.join(parts[:i] + [c.func.id])
+                if mod.has_func(cand):
+                    gq = cand
+                    break
+            if gq is None or gq not in fns:
+                continue
+            g = mod.func(gq)
+            shared = sorted(p for p in _ctx_params(g) if p in held)
+            if not shared:
+                continue
+            bound = _bind_call(c, g)
+            if bound is None:
+                raise Undecided(f'{q}: cannot bind the arguments of `{short(c)}`')
+            for p in shared:
+                n += 1
+                what = f'{q} -> {gq}: context parameter `{p}` is handed on'
+                if p not in bound:
+                    defaults = {a.arg for a, d in zip(reversed(g.args.posonlyargs + g.args.args), reversed(g.args.defaults))} | \
+                               {a.arg for a, d in zip(g.args.kwonlyargs, g.args.kw_defaults) if d is not None}
+                    if p in defaults:
+                        ctx.violation(mod, q, c, f'`{short(c)}` does not pass `{p}` although {q} holds it: {gq} falls back to the default of `{p}` '
+                                      f'instead of the value the caller was given (format / context lost on this path)', c)
+                    else:
+                        raise Undecided(f'{q}: `{short(c)}` leaves the required parameter `{p}` unbound')
+                    continue
+                arg = bound[p]
+                o = fl.origins(arg)
+                names_ = names_in(arg)
+                if p in names_ or f'param:{p}' in o or f'name:{p}' in o:
+                    ctx.ok(what + f' (`{short(arg, 40)}`)')
+                elif isinstance(arg, ast.Constant):
+                    ctx.violation(mod, q, c, f'`{short(c)}` passes the constant {norm(arg)} for `{p}` although {q} holds `{p}`: the context given to the caller is ignored', c)
+                else:
+                    others = sorted(x for x in held if x != p and (x in names_ or f'param:{x}' in o))
+                    if others and not any(x.startswith(('call:', 'attr:')) for x in o):
+                        ctx.violation(mod, q, c, f'`{short(c)}` binds `{p}` of {gq} to `{short(arg, 40)}`, which derives from {others} and not from the `{p}` that {q} holds '
+                                      '(arguments cross-wired)', c)
+                    else:
+                        raise Undecided(f'{q}: `{short(c)}` binds `{p}` to `{short(arg, 40)}`; cannot tell whether it carries {q}\'s `{p}`')
+    ctx.floor('context parameters handed on at call sites of the pipeline', n, 14)
+    # the two dispatchers derive the cmake switch from the format: only 'cmake@' restricts substitution to @VAR@
+    for q in ('do_conf_str', 'do_replacement'):
+        f = mod.func(q)
+        fmt = [a.arg for a in f.args.args if a.annotation is not None and 'Literal' in norm(a.annotation)]
+        if len(fmt) != 1:
+            raise Undecided(f'{q}: cannot identify the format parameter')
+        hits = 0
+        for c in [c for c in ast.walk(f) if isinstance(c, ast.Call) and isinstance(c.func, ast.Name) and mod.has_func(c.func.id)]:
+            g = mod.func(c.func.id)
+            sw = [a.arg for a in g.args.posonlyargs + g.args.args + g.args.kwonlyargs if a.annotation is not None and norm(a.annotation) == 'bool' and a.arg not in _ctx_params(f)]
+            if not sw:
+                continue
+            bound = _bind_call(c, g)
+            if bound is None:
+                raise Undecided(f'{q}: cannot bind the arguments of `{short(c)}`')
+            for p in sw:
+                hits += 1
+                if p not in bound:
+                    ctx.violation(mod, q, c, f'`{short(c)}` does not pass the switch `{p}`: the callee cannot know whether the format is cmake@', c)
+                    continue
+                a = bound[p]
+                ok = isinstance(a, ast.Compare) and len(a.ops) == 1 and isinstance(a.ops[0], ast.Eq) and \
+                    {norm(a.left), norm(a.comparators[0])} == {fmt[0], "'cmake@'"}
+                if ok:
+                    ctx.ok(f'{q} -> {c.func.id}: `{p}` is `{short(a)}`')
+                elif isinstance(a, (ast.Constant, ast.Compare)):
+                    ctx.violation(mod, q, c, f'`{short(c)}` sets `{p}` to `{short(a)}`; documented: only the format \'cmake@\' restricts substitution to @VAR@ ({fmt[0]} == \'cmake@\')', c)
+                else:
+                    raise Undecided(f'{q}: `{p}` is bound to `{short(a)}`')
+        ctx.floor(f'{q}: calls deriving the cmake@ switch from the format', hits, 1)
+
+
+# ---------------------------------------------------------------------------------------------
+# R7  the dispatch test of the per-line loops does not look at the indentation (dispatcher / transformer agreement, K8)
+# ---------------------------------------------------------------------------------------------
+def _indent_sense(e: ast.AST, var: str, mod: Module, qn: str) -> str:
+    """'blind' (the truth of e cannot depend on the leading blanks of `var`), 'sensitive' (a test anchored at the first character of the
+    unstripped line), or 'unknown'."""
+    ld = LineDep.__new__(LineDep)
+    ld.mod, ld.qn, ld.fn, ld.depth = mod, qn, mod.func(qn), 3
+    ld.env, ld.ctrl, ld.returns = {var: frozenset({'T', 'I'})}, frozenset(), []
+    t = ld.tags(e)
+    if not any(x.rstrip('*') == 'I' for x in t):
+        return 'blind'
+
+    def anchored(x: ast.AST) -> bool:
+        """text whose first character is the first character of the line"""
+        return 'I' in ld.tags(x)
+    for n in ast.walk(e):
+        if isinstance(n, ast.Call) and isinstance(n.func, ast.Attribute) and n.func.attr == 'startswith' and len(n.args) == 1 and \
+                isinstance(n.args[0], ast.Constant) and isinstance(n.args[0].value, str) and n.args[0].value[:1].strip() and anchored(n.func.value):
+            return 'sensitive'
+        if isinstance(n, ast.Compare) and len(n.ops) == 1 and isinstance(n.ops[0], (ast.Eq, ast.NotEq)):
+            for a, b in ((n.left, n.comparators[0]), (n.comparators[0], n.left)):
+                if isinstance(b, ast.Constant) and isinstance(b.value, str) and b.value[:1].strip() and isinstance(a, ast.Subscript) and anchored(a.value):
+                    s_ = a.slice
+                    if (isinstance(s_, ast.Constant) and s_.value == 0) or (isinstance(s_, ast.Slice) and s_.lower is None and s_.step is None):
+                        return 'sensitive'
+    return 'unknown'
+
+
+def r7(ctx: RuleCtx) -> None:
+    mod = ctx.repo.module(U)
+    verdicts: T.Dict[str, str] = {}
+    for qn, known in LINE_LOOPS.items():
+        fn = mod.func(qn)
+        loops = [s for s in fn.body if isinstance(s, ast.For) and isinstance(s.target, ast.Name)]
+        if len(loops) != 1:
+            raise Undecided(f'{qn}: expected one per-line loop')
+        loop = loops[0]
+        var = loop.target.id  # type: ignore[attr-defined]
+        define = sorted(k for k in known if 'define' in k)
+        pre = shape.PathEnv()
+        for st in fn.body[:fn.body.index(loop)]:
+            if isinstance(st, (ast.Assign, ast.AnnAssign)):
+                pre.stmt(st)            # constants such as the directive token
+        tab = shape.table(fn, body=loop.body, handlers=False, name=qn + ':loop', base={k: v for k, v in pre.env.items() if isinstance(v, ast.Constant)})
+        rows = [r for r in T.cast(T.List[shape.XRow], tab.rows)
+                if any(isinstance(c, ast.Call) and isinstance(c.func, ast.Name) and c.func.id in define for ev in r.path.events if ev.node is not None and ev.kind == 'stmt'
+                       for c in ast.walk(ev.node))]
+        if not rows:
+            raise Undecided(f'{qn}: no path of the loop calls {define}')
+        atoms: T.Dict[str, ast.AST] = {}
+        for r in rows:
+            for a in r.conds:
+                txt = a.args[0] if a.kind == 'truth' else None
+                e = _parse(repr(a)) if a.kind != 'truth' else _parse(T.cast(str, txt))
+                if var in names_in(e):
+                    atoms[repr(a)] = e
+        ctx.floor(f'{qn}: dispatch tests on the line', len(atoms), 1)
+        worst = 'blind'
+        unknown: T.List[str] = []
+        for txt, e in atoms.items():
+            sense = _indent_sense(e, var, mod, qn)
+            if sense == 'sensitive':
+                worst = 'sensitive'
+                ctx.violation(mod, qn, e, f'the test `{txt}` that sends a line to {define[0]} is anchored at the first character of the unstripped line: an indented '
+                              f'directive is not recognised and is copied out as ordinary text, although the define transformers tokenise with split() and the sibling '
+                              f'loop tolerates leading blanks', loop)
+            elif sense == 'unknown':
+                unknown.append(txt)
+            else:
+                ctx.ok(f'{qn}: dispatch test `{txt}` cannot depend on the leading blanks of the line')
+        if unknown and worst != 'sensitive':
+            raise Undecided(f'{qn}: cannot tell whether the dispatch test(s) {unknown} depend on the indentation of the line')
+        verdicts[qn] = worst
+    ctx.require(len(set(verdicts.values())) == 1, f'sibling loops agree on tolerating leading blanks: {verdicts}', mod, 'do_conf_str', 'sibling dispatch tests',
+                f'the two per-line loops disagree on indented directives: {verdicts}')
+
+
 RULES = [
     Rule('C14.R1', 'no substituted value reaches a placeholder scan (meson format)', r1),
     Rule('C14.R2', 'meson placeholder grammar: three alternatives, callback semantics', r2),
@@ -1411,5 +1647,7 @@ RULES = [
     Rule('C14.R4b', 'template read and written with newline=""', r4b),
     Rule('C14.R4c', 'per-line transformers keep indentation and terminator', r4c),
     Rule('C14.R5', 'generated header: sorted keys, one emission per key', r5),
+    Rule('C14.R6', 'context parameters (format switch, data, subproject) are handed on at every call of the pipeline', r6),
+    Rule('C14.R7', 'dispatch tests of the per-line loops do not depend on the indentation', r7),
 ]
 
